@@ -110,6 +110,31 @@ void run_d(Input const& in, Ctx& ctx) {
 				for(long i = 0; i < n; ++i) { VP_CHECK(std::abs(got3[static_cast<std::size_t>(i)] - want[static_cast<std::size_t>(i)]) <= tol, "fft/value_inplace_after", "in-place transform right after an out-of-place one: element " << i << " is " << got3[static_cast<std::size_t>(i)] << ", direct DFT gives " << want[static_cast<std::size_t>(i)]); }
 				guard_check(v3, p3, before3, "in-place transform after the out-of-place one");
 			});
+			// a plan object built for this geometry and executed twice, on this pair and on a second pair of arrays of the same layouts (FFTW's new-array execute)
+			if((in.head(11) & 1U) != 0) {
+				vp::ops::with_operand<D, cplx, true>(shape, kin, [&](auto& vin4) {
+					std::vector<cplx> x4(x.size()); for(std::size_t i = 0; i < x.size(); ++i) { x4[i] = cplx{x[i].imag() + 1.0, -x[i].real()}; }
+					set_elems(vin4, x4);
+					auto const want4 = direct_dft<D>(x4, ext, which, sign);
+					vp::ops::with_operand<D, cplx, true>(shape, kout, [&](auto& vout4) {
+						auto pout4 = vp::ops::last_parent<cplx>();
+						std::vector<cplx> before4(pout4.first, pout4.first + pout4.second);
+						if(vin4.layout() == vin.layout() && vout4.layout() == vout.layout()) {
+							multi::fftw::plan const pl(whicha, vin.base(), vin.layout(), vout.base(), vout.layout(), sgn);
+							for(auto& e : vout.elements()) { e = cplx{-1.0, -1.0}; }
+							pl.execute(vin.base(), vout.base());
+							pl.execute(vin4.base(), vout4.base());
+							auto g1 = read(vout), g4 = read(vout4);
+							for(long i = 0; i < n; ++i) { VP_CHECK(std::abs(g1[static_cast<std::size_t>(i)] - want[static_cast<std::size_t>(i)]) <= tol, "fft/plan_execute", "plan.execute on the planned arrays: element " << i << " is " << g1[static_cast<std::size_t>(i)] << ", direct DFT gives " << want[static_cast<std::size_t>(i)]); }
+							for(long i = 0; i < n; ++i) { VP_CHECK(std::abs(g4[static_cast<std::size_t>(i)] - want4[static_cast<std::size_t>(i)]) <= tol*2, "fft/plan_execute_other_arrays", "plan.execute on other arrays of the same layouts: element " << i << " is " << g4[static_cast<std::size_t>(i)] << ", direct DFT gives " << want4[static_cast<std::size_t>(i)]); }
+							guard_check(vout4, pout4, before4, "plan.execute on other arrays");
+							auto in4 = read(vin4);
+							for(long i = 0; i < n; ++i) { VP_CHECK(in4[static_cast<std::size_t>(i)] == x4[static_cast<std::size_t>(i)], "fft/input_modified", "plan.execute modified its (distinct) input at element " << i); }
+							ctx.label("plan_reused");
+						}
+					});
+				});
+			}
 			// forward followed by backward multiplies every element by the number of transformed points
 			multi::array<cplx, D> back(vin.extensions());
 			multi::fftw::dft(whicha, std::as_const(vout), back, sign < 0 ? multi::fftw::backward : multi::fftw::forward);
@@ -126,7 +151,7 @@ void run_d(Input const& in, Ctx& ctx) {
 
 struct Prop {
 	static constexpr char const* id = "C15";
-	static constexpr int H = 12, R = 1, MAXOPS = 0;
+	static constexpr int H = 12, R = 1, MAXOPS = 0;  // header byte 11: bit 0 = also build a plan object and execute it twice
 	static void run(Input const& in, Ctx& ctx) {
 		switch(in.head(0) % 4U) {
 			case 0: run_d<1>(in, ctx); break;
